@@ -35,11 +35,11 @@ Proof. apply (is_lim_ext (fun x => RInt nphi 0 x)); [|apply nphi_half_integral].
 
 (* ---- erfc ---- *)
 Lemma gauss_RInt (z : R) : RInt gauss 0 z = gI z.
-Proof. unfold gI. apply RInt_ext. intros t _. unfold gauss, ge. f_equal. ring. Qed.
+Proof. unfold gI. apply RInt_ext. intros t _. unfold gauss, gexp. f_equal. ring. Qed.
 
 Theorem erfc_upper_tail : forall z, 0 <= z -> 0 <= erfc_def z <= 4 / PI * exp (- z ^ 2).
 Proof. intros z Hz. unfold erfc_def. rewrite gauss_RInt. destruct (gI_bounds z Hz) as [L U].
-  unfold gc, ge in *. replace (- z ^ 2) with (- (z * z)) by ring.
+  unfold gc, gexp in *. replace (- z ^ 2) with (- (z * z)) by ring.
   pose proof sqrtPI_pos as HP. pose proof (sqrt_sqrt PI (Rlt_le _ _ PI_RGT_0)) as HPP.
   set (e := exp _) in *. set (I := gI z) in *. set (r := sqrt PI) in *.
   assert (E1 : 2 / r * (r / 2) = 1) by (field; lra).
